@@ -35,7 +35,7 @@ def c01(tier, seed):
                 shards.append(["-family", "kv", "-mode", mode, "-rw", rw, "-seed", str(s),
                                "-hist", str(hist), "-steps", str(steps)])
     # component check of bptree.go on its own: ~110 keys, several levels of splits
-    shards += fam_shards([("bptree", [])], seed, 1 if tier == "quick" else 10, 2, 15 if tier == "quick" else 40)
+    shards += fam_shards([("bptree", [])], seed, 1 if tier == "quick" else 10, 1 if tier == "quick" else 2, 10 if tier == "quick" else 40)
     rs = core.drive_and_validate(res, shards, core.dev_set(), "KV read result differs from the ordered-map model",
                                  "kv histories (Put/PutWithTimestamp/Delete, rotations, reopen) with full read battery")
     res.cov["samples"] = core.sample_events(rs[0]["trace"], 8, ops={"put", "del", "get", "range", "pscan", "getall"})
@@ -254,7 +254,10 @@ def c10(tier, seed):
         proto=[("mixedkv", ["-mode", "keyval"]), ("mixed", [])], fams=
                       [("crashkv", ["-mode", "keyval", "-rw", "fileio"]), ("crashkv", ["-mode", "keyonly", "-rw", "mmap"]),
                        ("crashkv", ["-mode", "keyval", "-rw", "mmap"]), ("crashkv", ["-mode", "keyonly", "-rw", "fileio"]),
-                       ("crash", ["-rw", "fileio"]), ("crash", ["-rw", "mmap"])],
+                       ("crash", ["-rw", "fileio"]), ("crash", ["-rw", "mmap"]),
+                       # the history continues on the crashed directory (a rotating commit, then another reopen)
+                       ("crashcontkv", ["-mode", "keyval", "-hist", "16"]), ("crashcontkv", ["-mode", "keyonly", "-hist", "16"]),
+                       ("crashcont", ["-hist", "12"])],
                       what="after a process crash Open failed, lost a returned transaction or showed part of an unfinished one",
                       desc="workloads (multi-record transactions across rotations, rollbacks, oversized entries followed in the same millisecond by a committing transaction, reopen) with a crash at every file-mutation point")
     return res.finish()
@@ -336,7 +339,7 @@ def c03(tier, seed):
     for mode in ("keyval", "keyonly"):
         shards += fam_shards([("page", ["-mode", mode])], seed, 1 if q else 12, 2 if q else 3, 30 if q else 80)
     # paging on the exported B+ tree itself (several leaves and levels; offsets up to beyond the key count)
-    shards += fam_shards([("bptree", [])], seed + 1, 1 if q else 10, 2, 15 if q else 40)
+    shards += fam_shards([("bptree", [])], seed + 1, 1 if q else 10, 1 if q else 2, 10 if q else 40)
     rs = core.drive_and_validate(res, shards, core.dev_set(), "a paginated scan returned something else than the live keys with the prefix after skipping offset, at most limit",
                                  "every status assignment (absent/live/deleted/expired) of a small key universe x every (prefix, offset, limit, regexp), enumerated by TLC and replayed; random histories with paged scans over 41 keys")
     res.cov["samples"] = core.sample_events(path, 3) + core.sample_events(rs[0]["trace"], 4, ops={"pscan", "psscan"})
